@@ -82,6 +82,8 @@ def model_to_typed(m, spec=None):
                 data.append(t['v'])
         return {'k': 'array', 'dtype': m['dtype'] if m['dtype'] != 'bool' else 'bool', 'shape': [max(x, 0) for x in shape],
                 'data': data}
+    if k == 'other':
+        return {'k': 'none'} if m.get('repr') == 'SNone' else {'k': 'other', 'repr': m.get('repr')}
     raise ReplayError(f'cannot convert model value of kind {k}')
 
 
@@ -138,6 +140,8 @@ def typed_to_value(t, state):
         return SRecord(t['cls'], {f: typed_to_value(x, state) for f, x in t['fields'].items()})
     if k == 'array':
         return concrete_array(t, state)
+    if k == 'other':
+        return NONE
     raise ReplayError(f'cannot lift typed value {k}')
 
 
